@@ -183,6 +183,21 @@ def r14_2(ctx):
                 ctx.ok((fn, what), sample=dict(fn=fn, clamp=what))
             else:
                 ctx.bad(f"{fn}|clamp|{what}", f"RingBuffer::{fn}: returned slice length {show(size)[:90]} is not clamped by the {what}", body=b, bb=x[0])
+        # each clamp is applied on every path to the slice (a clamp placed in the else-branch of the other is skipped
+        # exactly when the other one fired)
+        def is_end(a):
+            return any(l.endswith('::capacity') for l in leafs(a) if l.startswith('C:'))
+
+        def is_left(a):
+            return not is_end(a) and ('A:2' in leafs(a)) and (any(l.endswith('::window') for l in leafs(a) if l.startswith('C:')) or f"F:{RB}.length" in leafs(a))
+        for sel, what in ((is_left, 'remaining after offset'), (is_end, 'distance to end of storage')):
+            cmp_ = lambda f, sel=sel: f[0] == 'rel' and f[1] in ('Gt', 'Le', 'Lt', 'Ge') and \
+                ((sel(f[3]) and 'A:3' in leafs(f[2])) or (sel(f[2]) and 'A:3' in leafs(f[3])))
+            if unguarded(F, b, [x[0]], cmp_):
+                ctx.bad(f"{fn}|clamp-skipped|{what}", f"RingBuffer::{fn}: a path reaches the returned slice without the size having been compared with the {what} "
+                        "(the two clamps are not applied one after the other): the slice can overlap the other region of the ring", body=b, bb=x[0])
+            else:
+                ctx.ok((fn, what, 'on-every-path'), sample=dict(fn=fn, clamp=what, applied='on every path'))
         # offset beyond the region -> empty slice
         g = guard_edges(F, b, lambda f: f[0] == 'rel' and f[1] in ('Gt',) and simplify(f[2]) == ('arg', 2))
         if g:
